@@ -145,3 +145,28 @@ fn kf_c05_crash_during_rotation_leaves_a_gap() {
     // image has a gap and open refuses: manual repair needed
     if let Err(e) = r { eprintln!("open after crash during rotation refused: {e}; sizes {sizes:?}"); }
 }
+
+#[test]
+fn kf_c02_lower_term_reappend_unreadable_after_restart_with_small_cache() {
+    let d = tempfile::tempdir().unwrap();
+    let mut c = cfg(d.path().to_str().unwrap());
+    c.chunk_max_records = Some(4);
+    {
+        let mut rl = open(&c).unwrap();
+        // head State + 3 appends fill chunk 0; the suffix has term 5
+        rl.append([((1, 0), s("a")), ((5, 1), s("b")), ((5, 2), s("c"))]).unwrap();
+        // a new leader: truncate the suffix and re-append at a lower term (chunk 1)
+        rl.truncate(1).unwrap();
+        rl.append([((2, 1), s("x"))]).unwrap();
+        flush(&mut rl);
+        let got: Vec<_> = rl.read(1, 2).collect();
+        assert_eq!(got.len(), 1);
+        assert_eq!(got[0].as_ref().unwrap(), &((2, 1), s("x")));
+    }
+    // clean restart with a smaller cache
+    c.log_cache_max_items = Some(0);
+    let rl = open(&c).unwrap();
+    let got: Vec<_> = rl.read(1, 2).collect();
+    assert_eq!(got.len(), 1);
+    assert!(got[0].is_err(), "live entry of the open chunk is readable again after a restart with a small cache");
+}
